@@ -128,6 +128,20 @@ def object_events(entry, enc, tid0, rng, quick, run):
         evs.append({"ev": "Syndrome", "tid": tid, "w": fec.limbs(w, n), "linear": lin,
                     "s": fec.limbs(fec.to_int(s), max(n - k, 1)) if lin else [0], "zero": zero})
         run.case((entry.name, "syn", w), nontrivial=True)
+    # the syndrome as inverse_encode publishes it (second element of its result): zero exactly when calculate_syndrome's is; a word on which the
+    # two routes disagree is logged once more with the other route's verdict and judged by the specification
+    try:
+        r2 = enc.inverse_encode(W)
+        S2 = r2[1] if isinstance(r2, tuple) and len(r2) >= 2 and torch.is_tensor(r2[1]) else None
+    except Exception:
+        S2 = None
+    if S2 is not None and S2.dim() >= 1 and S2.shape[0] == len(words):
+        for i, w in enumerate(words):
+            run.case((entry.name, "syn", w, "inverse_encode"), nontrivial=True)
+            z2 = bool((S2[i] == 0).all())
+            if z2 != bool((S[i] == 0).all()):
+                tid += 1
+                evs.append({"ev": "Syndrome", "tid": tid, "w": fec.limbs(w, n), "linear": False, "s": [0], "zero": z2, "route": "inverse_encode"})
     return evs, tid
 
 
